@@ -379,7 +379,8 @@ Record J (s : state) (r : rstate) : Prop := {
   J_no : NoOffer s;
   (* a notification is pending in the code exactly for the addresses the reference owes one *)
   J_dirty : forall k h, hlookup k (hosts s) = Some h -> h_dirty h = existsb (ip_eqb k) (r_owed r);
-  J_names : forall k h, hlookup k (hosts s) = Some h -> h_names h = r_names r k }.
+  J_names : forall k h, hlookup k (hosts s) = Some h -> h_names h = r_names r k;
+  J_roff : forall m, r_offer r m = IPnone }.
 
 Definition unit_ok (c : cfg) (s : state) (u : dunit) : Prop :=
   match u with
@@ -405,7 +406,7 @@ Definition order_ok (c : cfg) (u : dunit) (em : list notif) : Prop :=
 
 Lemma J_hosts_macs s s' r : hosts s' = hosts s -> macs s' = macs s -> chan s' = [] -> J s r -> J s' r.
 Proof.
-  intros EH EM EC [A B C D E F]. constructor; auto.
+  intros EH EM EC [A B C D E F G]. constructor; auto.
   - destruct A as [A1 A2]. split; [eapply InvP_ext; eauto | eapply Inv4_ext; eauto].
   - intros k. unfold abs. rewrite EH. apply B.
   - eapply NoOffer_ext; eauto.
@@ -691,7 +692,7 @@ Lemma name_unit c s r kd k name :
   let s2 := fst (step c s (NameUpdate kd k name)) in
   chan s2 = chan s /\ J (set_chan [] s2) (rnext c r (UName kd k name)).
 Proof.
-  intros Js. cbn zeta. cbn [step fst]. pose proof Js as [A B C0 D E F].
+  intros Js. cbn zeta. cbn [step fst]. pose proof Js as [A B C0 D E F G].
   assert (CH : chan (update_name kd k name s) = chan s).
   { unfold update_name. destruct (hlookup k (hosts s)); auto. destruct (merge _ _) as [nm [|]]; reflexivity. }
   split; [exact CH|].
@@ -723,6 +724,12 @@ Proof.
     + apply (J_hosts_macs s); auto.
   - apply (J_hosts_macs s); auto.
 Qed.
+
+Lemma offers_after_none a a' dom off m : (forall m', off m' = IPnone) -> offers_after a a' dom off m = IPnone.
+Proof. intros H. unfold offers_after. destruct (_ && _); auto. Qed.
+
+Lemma dhcp_target_none r f : (forall m, r_offer r m = IPnone) -> dhcp_target r f = None.
+Proof. intros H. unfold dhcp_target. rewrite H. destruct (f_dhcp4 f); reflexivity. Qed.
 
 Theorem unit_once c s r u :
   J s r -> unit_ok c s u ->
@@ -759,11 +766,12 @@ Proof.
            rewrite abs_notify, AB. apply sight_ext. apply (J_abs s r Js).
         -- unfold NoOffer. cbn [macs set_chan]. rewrite (frame_unit_notify _ _ _ _ _ LF).
            apply NoOffer_notify. apply NO1. apply (J_no s r Js).
+        -- intros m0. cbn [r_offer]. apply offers_after_none. apply (J_roff s r Js).
     + destruct (frame_unit_none c s r f now Js W HE) as (EH & EM & EC).
       split; [|split].
-      * intros x. cbn [due]. rewrite <- EA, EC, (J_chan s r Js). reflexivity.
+      * intros x. cbn [due]. rewrite <- EA, EC, (J_chan s r Js), (dhcp_target_none r f (J_roff s r Js)). reflexivity.
       * unfold order_ok. rewrite <- EA, EC. apply (J_chan s r Js).
-      * cbn [rnext]. rewrite <- EA. apply (J_hosts_macs s); auto.
+      * cbn [rnext]. rewrite <- EA, (dhcp_target_none r f (J_roff s r Js)). apply (J_hosts_macs s); auto.
   - (* purge *)
     destruct (purge_unit_once c s r now order Js OK) as ((FO & ND & MEM) & JD & JN).
     destruct OK as (NDo & CO & CAP).
@@ -776,6 +784,7 @@ Proof.
         cbn [step fst]. rewrite purge_refine; [|apply (J_inv s r Js)|exact CO].
         unfold age. rewrite (J_abs s r Js). reflexivity.
       * apply NoOffer_purge. apply (J_no s r Js).
+      * intros m0. cbn [r_offer]. apply offers_after_none. apply (J_roff s r Js).
   - (* name update *)
     destruct (name_unit c s r kd k name Js) as (CH & Jn).
     split; [|split].
@@ -790,7 +799,7 @@ Proof.
     destruct EH as [EH EC]. split; [|split].
     + intros x. rewrite EC, (J_chan s r Js). reflexivity.
     + rewrite EC, (J_chan s r Js). constructor.
-    + cbn [rnext]. destruct Js as [A B C0 D E F]. constructor; auto.
+    + cbn [rnext]. destruct Js as [A B C0 D E F G]. constructor; auto.
       * apply (step_InvR c s (Capture m)). exact A.
       * intros x. unfold abs. cbn [hosts set_chan]. rewrite EH. apply B.
       * eapply NoOffer_ext; [|apply (NoOffer_capture m s D)]. cbn [step]. destruct (capture m s) as [s' [e|]]; reflexivity.
@@ -800,7 +809,7 @@ Proof.
     split; [|split].
     + intros x. cbn [step fst release upd_mac chan set_macs]. rewrite (J_chan s r Js). reflexivity.
     + cbn [step fst release upd_mac chan set_macs]. rewrite (J_chan s r Js). constructor.
-    + cbn [rnext]. destruct Js as [A B C0 D E F]. constructor; auto.
+    + cbn [rnext]. destruct Js as [A B C0 D E F G]. constructor; auto.
       * apply (step_InvR c s (Release m)). exact A.
       * apply NoOffer_upd_mac; [reflexivity|exact D].
 Qed.
@@ -875,16 +884,39 @@ Proof.
   destruct (existsb (ip_eqb x) r) eqn:EX; auto. apply existsb_exists in EX. destruct EX as (v & Iv & Ev). ipeq. subst v. contradiction.
 Qed.
 
-Theorem expect_due c dom r u x : NoDup dom -> In x dom -> about x (fst (expect c dom r u)) = due c r u x.
+Lemma sight_none m k now a x : x <> k -> a x = None -> sight m k now a x = None.
 Proof.
-  intros ND Ix. assert (EX : existsb (ip_eqb x) dom = true) by (apply existsb_exists; exists x; split; auto; apply ip_eqb_refl).
-  destruct u as [f now|now|kd k name|]; cbn [expect fst due]; auto.
-  - destruct (ref_event c f) as [[m k]|]; auto. rewrite about_app, about_map_false by (apply NoDup_filter; exact ND).
-    rewrite existsb_filter_ip, EX, andb_true_r.
-    destruct (ip_eqb x k) eqn:E; simpl.
-    + ipeq. subst x. destruct (negb (currentb (r_map r) m k) || existsb (ip_eqb k) (r_owed r)); simpl; [rewrite ip_eqb_refl|]; reflexivity.
-    + destruct (negb (currentb (r_map r) m k) || existsb (ip_eqb k) (r_owed r)); simpl; rewrite ?(ip_eqb_sym k x), ?E, ?app_nil_r; reflexivity.
-  - rewrite about_map_false by (apply NoDup_filter; exact ND). rewrite existsb_filter_ip, EX, andb_true_r. reflexivity.
+  intros N A. unfold sight. assert (E : ip_eqb x k = false) by (apply ip_eqb_neq; exact N). rewrite E, A. reflexivity.
+Qed.
+
+Theorem expect_due c r u x :
+  NoDup (r_dom r) -> (forall k, r_map r k <> None -> In k (r_dom r)) ->
+  about x (fst (expect c r u)) = due c r u x.
+Proof.
+  intros ND SUP.
+  assert (OUT : existsb (ip_eqb x) (r_dom r) = false -> r_map r x = None).
+  { intros EX. destruct (r_map r x) eqn:A; auto. exfalso.
+    assert (I : In x (r_dom r)) by (apply SUP; congruence).
+    assert (T : existsb (ip_eqb x) (r_dom r) = true) by (apply existsb_exists; exists x; split; auto; apply ip_eqb_refl). congruence. }
+  destruct u as [f now|now|kd k name|m k name now|m k|]; cbn [expect fst due]; auto.
+  - destruct (ref_event c f) as [[m k]|].
+    + rewrite about_app, about_map_false by (apply NoDup_filter; exact ND). rewrite existsb_filter_ip.
+      destruct (ip_eqb x k) eqn:E; simpl.
+      * ipeq. subst x. destruct (negb (currentb (r_map r) m k) || existsb (ip_eqb k) (r_owed r)); simpl; [rewrite ip_eqb_refl|]; reflexivity.
+      * assert (K : about x (if negb (currentb (r_map r) m k) || existsb (ip_eqb k) (r_owed r) then [(k, true)] else []) = []).
+        { destruct (negb _ || _); simpl; rewrite ?(ip_eqb_sym k x), ?E; reflexivity. }
+        rewrite K, app_nil_r. destruct (existsb (ip_eqb x) (r_dom r)) eqn:EX; [rewrite andb_true_r; reflexivity|].
+        rewrite andb_false_r. unfold sibling_due, sib_off. ipeq. rewrite (sight_none m k now (r_map r) x E (OUT eq_refl)).
+        rewrite !andb_false_r. reflexivity.
+    + destruct (dhcp_target r f) as [y|]; auto.
+      rewrite about_app, about_map_false by (apply NoDup_filter; exact ND). rewrite existsb_filter_ip.
+      destruct (ip_eqb x y) eqn:E; simpl.
+      * ipeq. subst x. rewrite ip_eqb_refl. reflexivity.
+      * rewrite (ip_eqb_sym y x), E, app_nil_r. destruct (existsb (ip_eqb x) (r_dom r)) eqn:EX; [rewrite andb_true_r; reflexivity|].
+        rewrite andb_false_r. unfold dhcp_sib. rewrite (OUT eq_refl). destruct (r_map r y); rewrite ?andb_false_r; reflexivity.
+  - rewrite about_map_false by (apply NoDup_filter; exact ND). rewrite existsb_filter_ip.
+    destruct (existsb (ip_eqb x) (r_dom r)) eqn:EX; [rewrite andb_true_r; reflexivity|].
+    rewrite andb_false_r. unfold flipb. rewrite (OUT eq_refl). reflexivity.
 Qed.
 
 (* ------------------------------------------------------------------ *)
